@@ -73,6 +73,10 @@ def cases_for(rng, tier):
     # the last object of the creating session is of each kind in turn; later sessions grow OTHER objects and that one
     for _ in range(250 if tier == "quick" else 6000):
         cases.append({"sb": rng.choice([0, 2, 3]), "ops": histgen.gen_tail_kind(rng)})
+    # an object of each kind (incl. dense groups and groups created with links), a neighbour allocated right behind it, then the
+    # first object's header grows in the same session (first hard link to it, attributes): the neighbour must be unchanged
+    for _ in range(150 if tier == "quick" else 4000):
+        cases.append({"sb": rng.choice([0, 2, 3]), "ops": histgen.gen_grow_with_neighbour(rng)})
     return cases
 
 
@@ -81,4 +85,4 @@ def run(ctx):
                          rule_extra="C04 cases: orders of {create X, create Y, write X, write Y, attribute on X, attribute on Y, hard link to X, "
                                     "resize X} (700 sampled permutations quick, all 40320 thorough) plus random interleavings over 2-6 live "
                                     "objects (a third of the datasets of the compound / array / enum / opaque / reference / variable-length kinds, groups also through CreateDenseGroup / CreateGroupWithLinks); datasets with the same link name in different groups modified through OpenDataset handles in reopened sessions; "
-                                    "histories whose last created object is of each kind in turn and whose later sessions move another dataset to dense attribute storage and grow that last object; every untouched object's data, attributes and links must be unchanged after reopen.")
+                                    "histories whose last created object is of each kind in turn and whose later sessions move another dataset to dense attribute storage and grow that last object; histories in which an object of each kind (incl. CreateDenseGroup / CreateGroupWithLinks groups) gets a neighbour allocated right behind it and then grows its header in the same session (first hard link, attributes up to the dense transition); every untouched object's data, attributes and links must be unchanged after reopen.")
